@@ -667,6 +667,25 @@ func (e *SpecEnv) call(n *ast.CallExpr) (SV, error) {
 				}
 			}
 			return SV{}, fmt.Errorf("unchanged: no such field %s", spec)
+		case "fresh":
+			// fresh(x): the slice (or object) x was not allocated in the pre-state: writing through it cannot be seen by the caller's frame
+			v, err := e.eval(n.Args[0])
+			if err != nil {
+				return SV{}, err
+			}
+			al0, ok := e.old.heap["alloc"]
+			if !ok {
+				return SV{tTrue, tBoolT}, nil
+			}
+			ref := v.T.S
+			if v.T.Sort == "Slice" {
+				ref = fmt.Sprintf("(sbase %s)", v.T.S)
+			}
+			if al1, ok := e.st.heap["alloc"]; ok && !e.atReturn && e.fn != e.g.f {
+				// at a call site: the callee's result joins the allocation set of the caller's state
+				e.st.heap["alloc"] = T(fmt.Sprintf("(store %s %s true)", al1.S, ref), al1.Sort)
+			}
+			return SV{T(fmt.Sprintf("(and (> %s 0) (not (select %s %s)))", ref, al0.S, ref), "Bool"), tBoolT}, nil
 		case "unchanged_except":
 			// unchanged_except("Type.field", ref): that field has its old value in every object other than ref
 			bl, ok := n.Args[0].(*ast.BasicLit)
